@@ -541,7 +541,8 @@ def run_plain_history(case, judge_leaves=False, literal=True):
             lines.append("FALSESTUB 0 " + d)
             expect.append(("judge", "OK", f"contract of size-limited op{k}:{op[0]} returning False"))
         if case.get("judge_leaves_after") and ret == "true" and op[0] in case["judge_leaves_after"] and (
-                op[0] not in ("bfs", "dfs", "min") or (op[1] % nbefore == 0 and (op[0] == "min" or op[2] is None))):
+                op[0] not in ("bfs", "dfs", "min") or op[1] % nbefore == 0):
+            # True means "complete below the start node" whatever limits were passed (a limit that is hit returns False)
             lines.append("LEAVES " + d)
             expect.append(("judge", "OK", f"minimal trap spaces after op{k}:{op[0]} reported completion"))
     final = prev
